@@ -44,6 +44,28 @@ NoStart == -1
 Dummy == [id |-> "", normal |-> FALSE, title |-> 0, start |-> NoStart]
 InitState == [modes |-> <<>>, active |-> Dummy, changed |-> FALSE]
 
+(* A model is constructed with options that shape its initial state                  *)
+(* (model_opts.go): WithInitialMode(modes...) - additive, = WithModeOption(           *)
+(* resource.WithInitialRecord) - puts modes into the table, WithInitialActiveMode     *)
+(* (= WithActiveModeOption(resource.WithInitialValue)) puts a mode into the active    *)
+(* mode value without any operation having run.  An initial configuration is          *)
+(*   [modes : sequence of [id, normal, title, start], active : [id, normal, title,    *)
+(*    start]]                                                                         *)
+(* and is well formed when at most one initial mode is normal and the initial active  *)
+(* mode is the blank one or (a copy of) one of the initial modes.  The clauses of C19 *)
+(* hold from there on: in particular the configured active mode is never deleted,     *)
+(* although no operation has "changed" the active mode yet.                           *)
+SeqIdsOf(seq) == { seq[k].id : k \in 1..Len(seq) }
+ModesFromSeq(seq) == [i \in SeqIdsOf(seq) |->
+                        LET k == CHOOSE k \in 1..Len(seq) : seq[k].id = i
+                        IN [normal |-> seq[k].normal, title |-> seq[k].title, start |-> seq[k].start]]
+StateFrom(ini) == [modes |-> ModesFromSeq(ini.modes), active |-> ini.active, changed |-> FALSE]
+EmptyInit == [modes |-> <<>>, active |-> Dummy]
+WellFormedInit(ini) ==
+  /\ Cardinality(SeqIdsOf(ini.modes)) = Len(ini.modes)
+  /\ Cardinality({ k \in 1..Len(ini.modes) : ini.modes[k].normal }) <= 1
+  /\ ini.active.id = "" \/ ini.active.id \in SeqIdsOf(ini.modes)
+
 Has(m, id) == id \in DOMAIN m
 NormalIds(m) == { i \in DOMAIN m : m[i].normal }
 Put(m, id, rec) == [i \in (DOMAIN m) \cup {id} |-> IF i = id THEN rec ELSE m[i]]
@@ -220,7 +242,16 @@ Ops ==
 
 NewIds(s, op) == IF op.op = "Create" THEN Ids \ DOMAIN s.modes ELSE {""}
 
-Init == st = InitState /\ now = 0
+\* the model-checking instance starts from every well formed configuration of up to 3 initial modes
+\* over Ids (title 0, no start time), the active mode blank or a copy of one of them
+InitTables == { m \in [Ids -> {"absent", "plain", "normal"}] :
+                  /\ Cardinality({ i \in Ids : m[i] # "absent" }) <= 3
+                  /\ Cardinality({ i \in Ids : m[i] = "normal" }) <= 1 }
+TableOf(m) == [i \in { j \in Ids : m[j] # "absent" } |-> [normal |-> m[i] = "normal", title |-> 0, start |-> NoStart]]
+InitStates == UNION { { [modes |-> TableOf(m), active |-> a, changed |-> FALSE]
+                        : a \in {Dummy} \cup { AsActive(TableOf(m), i, NoStart) : i \in DOMAIN TableOf(m) } }
+                      : m \in InitTables }
+Init == st \in InitStates /\ now = 0
 Do(op) == \E newid \in NewIds(st, op) : st' = Step(st, now, op, newid).post /\ now' = now
 Tick == now < MaxNow /\ now' = now + 1 /\ UNCHANGED st
 Next == Tick \/ \E op \in Ops : Do(op)
